@@ -58,7 +58,18 @@ def c01(res, scenario) -> list[Violation]:
                            f"pause acknowledged ({by}, event {i}) while {obj} is executing in the "
                            f"{t} thread")
 
+    frozen_at: float | None = None     # system-clock value when the pause request returned
     for i, (th, kind, obj, val) in enumerate(res.events):
+        if th == "control" and kind == "sysclock" and obj == "try_pause_ret" and ctl_phase == "paused":
+            frozen_at = val
+        elif th == "control" and kind in ("resume_call", "shutdown_call", "sysclock"):
+            v = val
+            if frozen_at is not None and isinstance(v, float) and v != frozen_at:
+                report("c01:clock-advanced-while-paused",
+                       f"the system clock read {frozen_at} when the pause request returned and {v} at "
+                       f"event {i} ({kind} {obj}) with no resume or shutdown issued in between")
+            if kind in ("resume_call", "shutdown_call"):
+                frozen_at = None
         if th in BG:
             if kind == "cb_begin":
                 if window is not None and cb_class(obj):
@@ -112,6 +123,10 @@ def c02(res, scenario) -> list[Violation]:
         return out
     if res.outcome.startswith("aborted"):
         return out                      # budget exhausted under this schedule: inconclusive
+    user_fault = any(e[1] in ("cb_raise", "savecond_raise") for e in res.events)
+    if res.outcome.startswith("raised") and "KeyboardInterrupt" not in res.outcome and not user_fault:
+        out.append(Violation(f"c02:launch-raised:{res.outcome.split(':')[1]}",
+                             f"launch() did not return cleanly: {res.outcome} (no user callback raised)", case))
     if res.post.get("alive"):
         out.append(Violation("c02:thread-alive", f"launch() returned with {res.post['alive']} alive", case))
     if res.post.get("clock_paused"):
